@@ -14,7 +14,7 @@ use serde::{Deserialize, Serialize};
 use std::convert::TryFrom;
 
 pub const RULE: &str = "case = pair (a, b) of decimals, or (a, primitive integer), or (a, normal float bits); b != 0: quotient exact when it has <= P digits, else >= P digits within half a unit of its last place (ties away from zero), correctly signed, identical across the four ownership forms; primitive / float forms equal the decimal division of the converted operand (+-2: exact half; numerator 1 excluded); b == 0: every / and /= form must panic; non-trivial = inexact quotient or a terminating one with >= 2 digits, or a zero-divisor case; distinct = structural hash";
-pub const EXPLANATION: &str = "Oracle is residual-based: |a - q*b| against |b|*ulp(q)/2 with exact model arithmetic; 'terminates within P digits' is decided by stripping factors 2 and 5 from the reduced denominator. P is the configured default precision (100). Generated: 1..2000 digits, any scales/signs, divisors 2^i*5^j (quotients terminating after 1..130 digits, emphasis 98..102), quotients with nines/zeros around the 100th digit (a = q*b + small), |a| << |b| and >>, equal integers at different scales, all ten integer types incl. 0, +-1, +-2, MIN, MAX, normal f32/f64 on either side.";
+pub const EXPLANATION: &str = "Oracle is residual-based: |a - q*b| against |b|*ulp(q)/2 with exact model arithmetic; 'terminates within P digits' is decided by stripping factors 2 and 5 from the reduced denominator. P is the configured default precision (100). Generated: 1..2000 digits, any scales/signs, divisors 2^i*5^j (quotients terminating after 1..130 digits; three stage arms aimed at exactly P-3..P+3 digits), quotients with nines/zeros around the 100th digit (a = q*b + small), |a| << |b| and >>, equal integers at different scales, all ten integer types incl. 0, +-1, +-2, MIN, MAX, normal f32/f64 on either side.";
 
 #[derive(Clone, Debug, Hash, Serialize, Deserialize)]
 pub struct Pair {
@@ -72,6 +72,12 @@ pub fn check_pair(c: &Pair) -> Verdict {
         });
         if info.tie {
             v.labels.push("tie");
+        }
+        if let Some(n) = info.terminating {
+            // quotients that end right at the precision: the exact / rounded boundary
+            if n + 3 >= p && n <= p + 3 {
+                v.labels.push(if n < p { "terminates-at-P-3..P-1" } else if n == p { "terminates-at-P" } else if n == p + 1 { "terminates-at-P+1" } else { "terminates-at-P+2..P+3" });
+            }
         }
     }
     v
@@ -281,7 +287,7 @@ pub fn check_float(c: &WithFloat) -> Verdict {
 // ---------------------------------------------------------------- generators
 
 fn pair_strategy(max_len: usize) -> BoxedStrategy<Pair> {
-    (gen::decimal(max_len, 3000), gen::decimal(max_len, 3000), 0..16u8, 0u32..=130, 0u32..=130, gen::sdigits(110), gen::sdigits(20))
+    (gen::decimal(max_len, 3000), gen::decimal(max_len, 3000), 0..22u8, 0u32..=130, 0u32..=130, gen::sdigits(110), gen::sdigits(20))
         .prop_map(|(a, b, special, i, j, q, small)| {
             let b = if b.is_zero() && special != 0 { D::new("7", b.scale) } else { b };
             match special {
@@ -340,6 +346,56 @@ fn pair_strategy(max_len: usize) -> BoxedStrategy<Pair> {
                     let ai = if (i + j) % 2 == 1 { -ai } else { ai };
                     Pair { a: D::new(ai.to_string(), a.scale), b }
                 }
+                14 | 15 | 16 => {
+                    // quotient terminating after exactly P-3..P+3 digits: a = Q*b with Q of that length, last digit non-zero
+                    // (special 16: b = 2^i 5^j, so that a itself is short and the digits come out of the division loop)
+                    let p = build_cfg().precision as usize;
+                    let want_len = (p + (i as usize % 7)).saturating_sub(3).max(1);
+                    if special == 16 {
+                        // a / 2^k has digits(a * 5^k) digits: pick a to land on want_len
+                        let k = 20 + (j % 60);
+                        let five_k = BigInt::from(5u8).pow(k);
+                        let have = five_k.to_string().len();
+                        let alen = want_len.saturating_sub(have).max(1);
+                        let mut qs = q.trim_start_matches('-').to_string();
+                        while qs.len() < alen {
+                            qs.push('7');
+                        }
+                        qs.truncate(alen);
+                        // odd and not a multiple of five, so no factor cancels
+                        let last = ["1", "3", "7", "9"][(i % 4) as usize];
+                        qs.pop();
+                        qs.push_str(last);
+                        let qs = qs.trim_start_matches('0').to_string();
+                        return Pair { a: D::new(if qs.is_empty() { "3".into() } else { qs }, a.scale), b: D::new((BigInt::from(1u8) << k as usize).to_string(), b.scale) };
+                    }
+                    let mut qs = q.trim_start_matches('-').to_string();
+                    if qs == "0" {
+                        qs = "3".into();
+                    }
+                    let base = qs.clone();
+                    while qs.len() < want_len {
+                        qs.push_str(&base);
+                    }
+                    qs.truncate(want_len);
+                    if qs.ends_with('0') {
+                        qs.pop();
+                        qs.push('7');
+                    }
+                    let ai = crate::conv::bigint(&qs) * b.bigint();
+                    Pair { a: D::new(ai.to_string(), a.scale), b }
+                }
+                17 => {
+                    // equal magnitudes, opposite signs, different scales
+                    let n = b.negated();
+                    Pair { a: D::new(n.int, a.scale), b }
+                }
+                18 | 19 => {
+                    // divisor of value +-one or a power of ten, not in canonical form: 1.000, 10e-1, 1000e2
+                    let z = (i % 40) as usize;
+                    let sc = if special == 18 { z as i64 } else { (j as i64 % 80) - 40 };
+                    Pair { a, b: D::new(format!("{}1{}", if j % 2 == 0 { "" } else { "-" }, "0".repeat(z)), sc) }
+                }
                 8 => Pair { a: D::new(b.int.clone(), a.scale), b }, // equal unscaled integers, different scales
                 9 => Pair { a: D::new(small, a.scale), b },           // |a| << |b|
                 10 => Pair { a, b: D::new(if small == "0" { "3".into() } else { small }, b.scale) }, // |a| >> |b|
@@ -379,6 +435,8 @@ fn float_strategy(max_len: usize) -> BoxedStrategy<WithFloat> {
                     5 => 3.0f64.to_bits(),
                     6 => 1e10f64.to_bits(),
                     // moderate exponents so the exact conversion stays short
+                    7 => (raw & 0x800f_ffff_ffff_ffff) | ((1 + (raw >> 52) % 2046) << 52), // any normal exponent
+                    8 => [f64::MAX, f64::MIN_POSITIVE, 1e300, 1e-300, -f64::MAX, f64::EPSILON][(raw % 6) as usize].to_bits(),
                     _ => (raw & 0x800f_ffff_ffff_ffff) | (((1023 - 40 + (raw >> 52) % 80) & 0x7ff) << 52),
                 }
             } else {
@@ -390,6 +448,8 @@ fn float_strategy(max_len: usize) -> BoxedStrategy<WithFloat> {
                     3 => (-2.0f32).to_bits(),
                     4 => 0.1f32.to_bits(),
                     5 => 3.0f32.to_bits(),
+                    7 => (r & 0x807f_ffff) | ((1 + (r >> 23) % 254) << 23), // any normal exponent
+                    8 => [f32::MAX, f32::MIN_POSITIVE, 1e30, 1e-30, -f32::MAX, f32::EPSILON][(r % 6) as usize].to_bits(),
                     _ => (r & 0x807f_ffff) | (((127 - 30 + (r >> 23) % 60) & 0xff) << 23),
                 }) as u64
             };
@@ -433,7 +493,7 @@ pub fn run(ctx: &Ctx) {
         check_pair,
     );
     let max_len = t.pick(300usize, 2000);
-    ctx.generated("random-pairs", "pair", t.pick(200_000, 6_000_000), "1..max digits, any scales/signs; divisors 2^i*5^j; terminating near 100 digits; a = q*b +- r with long q; equal integers; |a| << / >> |b|; remainders next to half the divisor at the rounding position (a = Q*b + b/2 +- 1 with Q of P digits); zero divisors", move || pair_strategy(max_len), check_pair);
+    ctx.generated("random-pairs", "pair", t.pick(200_000, 6_000_000), "1..max digits, any scales/signs; divisors 2^i*5^j; terminating near 100 digits; a = q*b +- r with long q; equal integers (also with opposite signs); divisors of value +-1 / 10^k in non-canonical form; quotients terminating after exactly P-3..P+3 digits; |a| << / >> |b|; remainders next to half the divisor at the rounding position (a = Q*b + b/2 +- 1 with Q of P digits); zero divisors", move || pair_strategy(max_len), check_pair);
     ctx.generated("random-prims", "prim", t.pick(100_000, 2_000_000), "random decimal x primitive integer of random type (specials 0, +-1, +-2, MIN, MAX), 9 overloads each", move || prim_strategy(max_len.min(150)), check_prim);
-    ctx.generated("random-floats", "float", t.pick(60_000, 2_000_000), "random decimal x normal f32/f64 (specials +-1, +-2, 0.1, 3, 1e10; exponents within +-40), 9 overloads each", move || float_strategy(max_len.min(150)), check_float);
+    ctx.generated("random-floats", "float", t.pick(60_000, 2_000_000), "random decimal x normal f32/f64 (specials +-1, +-2, 0.1, 3, 1e10; exponents mostly within +-40, one case in six anywhere in the normal range incl. MAX / MIN_POSITIVE), 9 overloads each", move || float_strategy(max_len.min(150)), check_float);
 }
